@@ -18,6 +18,9 @@ pub struct Scenario {
     /// workload-specific data (W-subst: index of the substitution in the straight-line prefix)
     #[serde(default)]
     pub meta: Vec<i64>,
+    /// != 0: the program is handed to the code generators with noisy display names
+    #[serde(default)]
+    pub noise: u64,
 }
 
 #[derive(Clone, Debug, Serialize, Deserialize)]
@@ -321,7 +324,7 @@ pub fn run_scenario(sc: &Scenario, cfg: &RunCfg, rng: &mut Rng, keys: u64, stats
             stats.discard("rv64: program prints");
             continue;
         }
-        let text = match compile::emit(&sc.prog, b, keys) {
+        let text = match compile::emit_noisy(&sc.prog, b, keys, sc.noise) {
             Ok(t) => t,
             Err(CompileErr::Capacity(_)) => {
                 stats.discard(&format!("{}: backend capacity", b.name()));
